@@ -9,6 +9,7 @@ import GrcVerif.Json
 import GrcVerif.FsmCheck
 import GrcVerif.IR
 import GrcVerif.Rules
+import GrcVerif.Precedence
 namespace Grc.Driver
 
 structure State where
@@ -118,6 +119,47 @@ def cmdC02 (st : State) : Except String (List String) := do
         out := out ++ [s!"pass {pr.passIndex} FAIL cert-rejected why={why} {cexs}"]
   return out ++ ["done"]
 
+
+/-- C06: header fields of each pass against the model of FixRulePreContexts/SortKey, and the start-state
+    hypothesis of `Prec.start_state_fires_iff` evaluated on the decoded table. -/
+def cmdC06 (st : State) : Except String (List String) := do
+  let silf ← getSilf st
+  let mut out : List String := []
+  for pj in st.ir.passes do
+    match silf.passes[pj.index]? with
+    | none => out := out ++ [s!"pass {pj.index} FAIL no-such-pass-in-font"]
+    | some pass =>
+      let mp := passMaxPre pj.rules
+      let mn := passMinPre pj.rules
+      let keys := pj.rules.map (·.sortKey)
+      let pres := pj.rules.map (·.preCount)
+      let d := Fsm.FsmData.ofPass pass
+      let mut fails : List String := []
+      if pass.numRules != pj.rules.length then fails := fails ++ [s!"rule-count font={pass.numRules} ir={pj.rules.length}"]
+      if pass.maxRulePreContext != mp then fails := fails ++ [s!"maxRulePreContext font={pass.maxRulePreContext} model={mp}"]
+      if pass.minRulePreContext != mn then fails := fails ++ [s!"minRulePreContext font={pass.minRulePreContext} model={mn}"]
+      if pass.ruleSortKeys.toList != keys then fails := fails ++ [s!"ruleSortKeys font={pass.ruleSortKeys.toList} model={keys}"]
+      if pass.rulePreContext.toList != pres then fails := fails ++ [s!"rulePreContext font={pass.rulePreContext.toList} model={pres}"]
+      -- start states: state after k phantom glyphs
+      for k in [0:mp - mn + 1] do
+        let sa := Prec.stateAfter d.table 0 (List.replicate k st.ir.phantom)
+        let fs := pass.startStates[k]?
+        if sa != fs then fails := fails ++ [s!"startStates[{k}] font={fs} walk-over-phantoms={sa}"]
+      -- phantom in ANY, every rule has an input item
+      if !((st.ir.classes.getD st.ir.anyClass []).contains st.ir.phantom) then fails := fails ++ ["ir: phantom not in ANY"]
+      if pj.rules.any (fun r => r.inputClasses.isEmpty) then fails := fails ++ ["ir: rule without input items"]
+      -- rule map order inside each success state ascending (source order among equals)
+      for j in [0:pass.numSuccess] do
+        let a := pass.oRuleMap.getD j 0
+        let b := pass.oRuleMap.getD (j+1) 0
+        let seg := (pass.ruleMap.toList.drop a).take (b - a)
+        if !(seg.zip (seg.drop 1)).all (fun (x, y) => x < y) then fails := fails ++ [s!"ruleMap of success state {j} not ascending: {seg}"]
+      if fails.isEmpty then
+        out := out ++ [s!"pass {pj.index} ok rules={pj.rules.length} minPre={mn} maxPre={mp} keys={keys}"]
+      else
+        out := out ++ [s!"pass {pj.index} FAIL " ++ " ; ".intercalate fails]
+  return out ++ ["done"]
+
 def step (st : State) (toks : List String) : IO (State × List String) := do
   match toks with
   | [] => return (st, [])
@@ -164,6 +206,10 @@ def step (st : State) (toks : List String) : IO (State × List String) := do
     | .error e => return (st, [s!"error {e}"])
   | ["c02"] =>
     match cmdC02 st with
+    | .ok ls => return (st, ls)
+    | .error e => return (st, [s!"error {e}", "done"])
+  | ["c06"] =>
+    match cmdC06 st with
     | .ok ls => return (st, ls)
     | .error e => return (st, [s!"error {e}", "done"])
   | _ => return (st, ["bad-op"])
